@@ -129,4 +129,67 @@ example : addPart { total := 2, parts := [none, some 7] } 0 true = .ok .accepted
 example : addPart { total := 2, parts := [none, some 7] } 1 true = .ok (.rejected "duplicate") := by decide
 example : setProposal 3 673 true (2 ^ 30) = .ok .accepted := by decide
 
+/-- T2, lock discipline: which exported methods of the vote and part containers take the receiver's mutex first.  The
+reactor's gossip goroutines read these containers while the state machine writes them; an unlocked map read concurrent with
+a write is a fatal runtime error (`concurrent map read and map write`) that no `recover` catches — a remote peer can provoke the
+reads at will.  The unlocked ones are getters of fields that never change after construction (and `String`, which
+delegates).  Any change of this table (a lock dropped, a new unlocked method) breaks the `decide` and has to be reviewed. -/
+theorem lock_discipline_fact : Gen.C16Facts.lockFacts =
+    [("VoteSet.ChainID", false),
+     ("VoteSet.Height", false),
+     ("VoteSet.Round", false),
+     ("VoteSet.Type", false),
+     ("VoteSet.Size", false),
+     ("VoteSet.AddVote", true),
+     ("VoteSet.SetPeerMaj23", true),
+     ("VoteSet.BitArray", true),
+     ("VoteSet.BitArrayByBlockID", true),
+     ("VoteSet.GetByIndex", true),
+     ("VoteSet.GetByAddress", true),
+     ("VoteSet.HasTwoThirdsMajority", true),
+     ("VoteSet.IsCommit", true),
+     ("VoteSet.HasTwoThirdsAny", true),
+     ("VoteSet.HasAll", true),
+     ("VoteSet.TwoThirdsMajority", true),
+     ("VoteSet.String", false),
+     ("VoteSet.StringIndented", true),
+     ("VoteSet.MarshalJSON", true),
+     ("VoteSet.BitArrayString", true),
+     ("VoteSet.VoteStrings", true),
+     ("VoteSet.StringShort", true),
+     ("VoteSet.MakeCommit", true),
+     ("HeightVoteSet.Reset", true),
+     ("HeightVoteSet.Height", true),
+     ("HeightVoteSet.Round", true),
+     ("HeightVoteSet.SetRound", true),
+     ("HeightVoteSet.AddVote", true),
+     ("HeightVoteSet.Prevotes", true),
+     ("HeightVoteSet.Precommits", true),
+     ("HeightVoteSet.POLInfo", true),
+     ("HeightVoteSet.SetPeerMaj23", true),
+     ("HeightVoteSet.String", false),
+     ("HeightVoteSet.StringIndented", true),
+     ("HeightVoteSet.MarshalJSON", true),
+     ("PartSet.Header", false),
+     ("PartSet.HasHeader", false),
+     ("PartSet.BitArray", true),
+     ("PartSet.Hash", false),
+     ("PartSet.HashesTo", false),
+     ("PartSet.Count", false),
+     ("PartSet.Total", false),
+     ("PartSet.AddPart", true),
+     ("PartSet.GetPart", true),
+     ("PartSet.IsComplete", false),
+     ("PartSet.GetReader", false),
+     ("PartSet.StringShort", true),
+     ("PartSet.MarshalJSON", true)] := by decide
+
+/-- every method that reads or writes the vote maps locks -/
+theorem vote_map_methods_lock :
+    ∀ m ∈ ["VoteSet.AddVote", "VoteSet.SetPeerMaj23", "VoteSet.BitArray", "VoteSet.BitArrayByBlockID", "VoteSet.GetByIndex",
+           "VoteSet.GetByAddress", "VoteSet.HasTwoThirdsMajority", "VoteSet.IsCommit", "VoteSet.HasTwoThirdsAny", "VoteSet.HasAll",
+           "VoteSet.TwoThirdsMajority", "VoteSet.MakeCommit", "HeightVoteSet.AddVote", "HeightVoteSet.Prevotes",
+           "HeightVoteSet.Precommits", "HeightVoteSet.POLInfo", "HeightVoteSet.SetPeerMaj23", "HeightVoteSet.SetRound",
+           "PartSet.AddPart", "PartSet.GetPart", "PartSet.BitArray"], (m, true) ∈ Gen.C16Facts.lockFacts := by decide
+
 end Props.C16
